@@ -47,7 +47,7 @@ def summarise(f, file):
     pnames = [p[0] for p in params]
     s = {"name": f["name"], "file": file, "params": params, "ret": f["sig"]["ret"], "vis": f["vis"], "doc": f.get("doc", ""),
          "opcode": None, "rtype": None, "rid": None, "slots": [], "sink": None, "id_src": None, "problems": [],
-         "returns": None, "emits": False, "dedup": False, "guards": [], "fn": f}
+         "returns": None, "emits": False, "dedup": False, "guards": [], "fn": f, "other": []}
     news = find_inst_new(f["body"])
     if not news:
         return s
@@ -92,6 +92,9 @@ def summarise(f, file):
             pat, init = st[1], st[3]
             name = pat[1] if pat[0] == "p_ident" else None
             if init is None or name is None:
+                if init is not None and not _touches(init, inst_var, ops_var, new) and (st[4] is None or not _touches(st[4], inst_var, ops_var, new) or "return Err" in show(st[4])):
+                    s["other"].append(txt)
+                    continue
                 s["problems"].append("statement: " + txt)
                 continue
             if init is new or (find_inst_new(init) and unblock(init) is new):
@@ -119,6 +122,9 @@ def summarise(f, file):
             if init[0] == "ref" and "self.module.functions" in show(init):
                 continue
             if init[0] == "call" and (path_of(init[1]) or "").endswith("Function::new") or (init[0] == "call" and (path_of(init[1]) or "").endswith("Block::new")):
+                continue
+            if not _touches(init, inst_var, ops_var, new):
+                s["other"].append(txt)
                 continue
             s["problems"].append("statement: " + txt)
             continue
@@ -193,7 +199,7 @@ def summarise(f, file):
                 s["returns"] = "sink-result"
             continue
         # type dedup three-way branch
-        dd = _dedup(e, inst_var)
+        dd = dedup_stmt(e, inst_var, pnames)
         if dd is not None:
             s["dedup"] = dd
             s["sink"] = ("section", "types_global_values")
@@ -222,6 +228,9 @@ def summarise(f, file):
             if show(r) == "()":
                 s["returns"] = "()"
                 continue
+        if not _touches(e, inst_var, ops_var, new):
+            s["other"].append(txt)
+            continue
         s["problems"].append("statement: " + txt)
     s["slots"] = pre_slots + s["slots"]
     s["idvars"] = idvars
@@ -238,6 +247,18 @@ def summarise(f, file):
     else:
         s["id_src"] = ("other", str(rid))
     return s
+
+
+def _touches(e, inst_var, ops_var, new):
+    """does the expression mention the instruction under construction, its operand vector, or build/push instructions?"""
+    for x in walk(e):
+        if x is new:
+            return True
+        if x[0] == "path" and x[1] in (inst_var, ops_var) and x[1] is not None:
+            return True
+        if x[0] == "mcall" and x[2] in ("push", "insert", "extend", "append") and "self.module" in show(x[1]):
+            return True
+    return False
 
 
 def _is_inst(e, inst_var, new):
@@ -277,6 +298,102 @@ def _sink(e, inst_var, new):
     return None
 
 
+class _DD(Exception):
+    pass
+
+
+def dedup_eval(e, inst_var, explicit_param):
+    """Evaluate the final expression of an implicit-type method for (explicit id given?, identical declaration found?).
+    -> {(explicit, found): (pushes, pushed_result_id, returned)} with symbols 'E' (explicit id), 'D' (found id), 'F' (fresh id),
+    'orig' (the id the instruction was built with = result_id parameter)."""
+    out = {}
+    for explicit in (True, False):
+        for found in (True, False):
+            env = {explicit_param: ("some", "E") if explicit else ("none",)}
+            st = {"pushes": 0, "pushed_id": None, "inst_id": "orig", "fresh": 0, "dedup_calls": 0}
+
+            def val(x):
+                x = unblock(x)
+                k = x[0]
+                if k == "path":
+                    if x[1] in env:
+                        return env[x[1]]
+                    if x[1] == "None":
+                        return ("none",)
+                    raise _DD("name " + x[1])
+                if k == "call" and path_of(x[1]) == "Some" and len(x[2]) == 1:
+                    return ("some", val(x[2][0]))
+                if k == "mcall" and path_of(x[1]) == "self" and x[2] == "dedup_insert_type" and show(x[3][0]) == "&" + inst_var:
+                    st["dedup_calls"] += 1
+                    if st["inst_id"] != "orig":
+                        raise _DD("lookup after the id was changed")
+                    return ("some", "D") if found else ("none",)
+                if k == "mcall" and path_of(x[1]) == "self" and x[2] == "id" and not x[3]:
+                    st["fresh"] += 1
+                    return "F"
+                if k == "mcall" and x[2] == "push" and show(x[1]) == "self.module.types_global_values" and path_of(x[3][0]) == inst_var:
+                    st["pushes"] += 1
+                    st["pushed_id"] = st["inst_id"]
+                    return None
+                if k == "assign" and show(x[1]) == inst_var + ".result_id":
+                    v = val(x[2])
+                    if not (isinstance(v, tuple) and v[0] == "some"):
+                        raise _DD("result_id assigned " + show(x[2]))
+                    st["inst_id"] = v[1]
+                    return None
+                if k == "block":
+                    r = None
+                    for s_ in x[1]:
+                        if s_[0] == "local" and s_[1][0] == "p_ident" and s_[3] is not None:
+                            env[s_[1][1]] = val(s_[3])
+                            r = None
+                        elif s_[0] == "expr":
+                            r = val(s_[1])
+                            if s_[2]:
+                                r = None
+                        else:
+                            raise _DD("statement")
+                    return r
+                if k == "if" and x[1][0] == "let":
+                    v = val(x[1][2])
+                    pat = x[1][1]
+                    if pat[0] == "p_ts" and pat[1] == "Some" and pat[2][0][0] == "p_ident":
+                        if isinstance(v, tuple) and v[0] == "some":
+                            env[pat[2][0][1]] = v[1]
+                            return val(x[2])
+                        return val(x[3]) if x[3] is not None else None
+                    raise _DD("if-let pattern")
+                if k == "match":
+                    v = val(x[1])
+                    for pat, guard, body in x[2]:
+                        if guard is not None:
+                            raise _DD("guard")
+                        if pat[0] == "p_ts" and pat[1] == "Some" and pat[2][0][0] == "p_ident":
+                            if isinstance(v, tuple) and v[0] == "some":
+                                env[pat[2][0][1]] = v[1]
+                                return val(body)
+                        elif (path_of(pat) or "") == "None":
+                            if v == ("none",):
+                                return val(body)
+                        elif pat[0] == "p_wild":
+                            return val(body)
+                        else:
+                            raise _DD("match pattern")
+                    raise _DD("no arm")
+                if k == "return" and x[1] is not None:
+                    raise _DD("early return")
+                raise _DD("expression " + show(x)[:60])
+            try:
+                r = val(e)
+            except _DD as ex:
+                return {"error": str(ex)}
+            out[(explicit, found)] = (st["pushes"], st["pushed_id"], r, st["fresh"])
+    return out
+
+
+DEDUP_WANT = {(True, True): (1, "orig", "E", 0), (True, False): (1, "orig", "E", 0), (False, True): (0, None, "D", 0), (False, False): (1, "F", "F", 1)}
+
+
 def _dedup(e, inst_var):
     """if let Some(id) = result_id { push; id } else if let Some(id) = self.dedup_insert_type(&inst) { id } else { fresh; set; push; id }"""
     if not (e[0] == "if" and e[1][0] == "let" and e[3] is not None and inst_var):
@@ -300,6 +417,19 @@ def _dedup(e, inst_var):
         nid = b3[0][4:].split(" ")[0]
         ok3 = b3[1] == "%s.result_id = Some(%s);" % (inst_var, nid) and b3[2] == "self.module.types_global_values.push(%s);" % inst_var and b3[3] == nid
     return {"shape_ok": bool(ok1 and ok2 and ok3), "explicit_param": path_of(src), "why": "%s %s %s" % (ok1, ok2, ok3), "text": t[:300]}
+
+
+def dedup_stmt(e, inst_var, pnames):
+    """the statement is the explicit/found/fresh decision of an implicit-type method if it mentions dedup_insert_type"""
+    if not inst_var or "dedup_insert_type" not in show(e):
+        return None
+    cands = [p for p in pnames if p in ("result_id",)] or list(pnames)
+    for ep in cands:
+        tab = dedup_eval(e, inst_var, ep)
+        if "error" not in tab:
+            ok = all(tab.get(k) == v for k, v in DEDUP_WANT.items())
+            return {"shape_ok": ok, "explicit_param": ep, "why": "decision table %s" % {str(k): v for k, v in tab.items()}, "text": show(e)[:300]}
+    return {"shape_ok": False, "explicit_param": cands[0] if cands else None, "why": "not evaluable: %s" % tab.get("error"), "text": show(e)[:300]}
 
 
 def _select_sink(e, inst_var):
